@@ -476,8 +476,12 @@ theorem find_eq_scan (within : List Pt → Pt → Bool) (n : Net) (hs : Sync n) 
     findByPosition within n pts =
       .ok (pts.map (fun p => (n.lanelets.filter (fun l => within l.poly.ring p)).map (·.id))) := by
   unfold findByPosition
-  rw [tree_sync hs]
-  exact mapM_ok _ _ _ (fun p _ => scan_sync hs (fun ring => within ring p))
+  cases pts with
+  | nil => rfl
+  | cons p ps =>
+    simp only []
+    rw [tree_sync hs]
+    exact mapM_ok _ _ _ (fun p _ => scan_sync hs (fun ring => within ring p))
 
 /-- The same for `find_lanelet_by_shape` with a Circle / Polygon / Rectangle. -/
 theorem findShape_eq_scan (meets : List Pt → Prim → Bool) (n : Net) (hs : Sync n) (s : Prim) :
